@@ -1,4 +1,4 @@
-from .common import LEAN_TB
+from .common import RUN_FDS_SMALL, LEAN_TB
 from .C03 import LOOP_TB, LOOP_RUNS, LOOP_RULE
 
 PROP = {
@@ -22,8 +22,9 @@ PROP = {
         "Sonic.Props.C04.C04_closed_inside_own_callback_stops",
         "Sonic.Model.Loop.step_timer",
     ],
-    "runs": LOOP_RUNS,
-    "keys": ["timer-*", "closed-timer-revived", "schedule-while-scheduled-accepted", "scheduled-flag-wrong"],
+    # a timer closed twice must not close a descriptor that now belongs to another timer (descriptor-table component of C13)
+    "runs": LOOP_RUNS + [RUN_FDS_SMALL],
+    "keys": ["timer-*", "closed-timer-revived", "schedule-while-scheduled-accepted", "scheduled-flag-wrong", "fds.foreign-close"],
     "secondary_keys": ["timer-never-fired-although-due", "timer-early", "timer-callback-after-cancel-or-close", "closed-timer-revived", "scheduled-flag-wrong",
                        "schedule-while-scheduled-accepted"],
     "rule": LOOP_RULE + "; timers use ticks of 12 ms, the harness compares the monotonic clock at the scheduling call with the clock at "
